@@ -505,6 +505,14 @@ def rule_wr_sort(cx, rep, port):
         cfd = p.func(mod, cname, required=False) if cname else None
         if cfd is None and getattr(cmpf, 'js_function_ref', None) is not None:
             cfd = cmpf.js_function_ref
+        if isinstance(cmpf, ast.Lambda) or (cfd is not None and getattr(cfd, 'js_anonymous', False)):
+            body = cmpf.body if isinstance(cmpf, ast.Lambda) else cfd
+            inner = [x for x in ast.walk(body) if isinstance(x, ast.Call) and dotted(x.func) and p.func(mod, dotted(x.func), required=False) is not None]
+            scaled = [x for x in ast.walk(body) if isinstance(x, (ast.BinOp, ast.UnaryOp)) and any(i is y for i in inner for y in ast.walk(x))]
+            swapped = [x for x in inner if len(x.args) == 2 and isinstance(cmpf, ast.Lambda) and [dotted(a) for a in x.args] == [a.arg for a in reversed(cmpf.args.args)]]
+            if scaled or swapped:
+                rep.violated(_key(c, 'finish') + ' sort', sc, 'DESC is implemented by a descending comparator (`{}`): entries with equal keys stay in emission order instead of being reversed, so DESC is not the exact reverse of ASC'.format(node_text(cmpf, 80)))
+                return
         if cfd is None:
             rep.undecided(_key(c, 'finish') + ' sort', sc, 'comparator `{}` not resolved'.format(node_text(cmpf)))
             return
